@@ -497,6 +497,27 @@ for _n in ('zeros_like', 'ones_like', 'empty_like', 'outer', 'einsum', 'arange',
            'linalg.lstsq', 'linalg.pinv', 'linalg.norm', 'random.default_rng', 'random.uniform',
            'random.rand', 'random.normal', 'random.seed', 'random.randn', 'random.poisson'):
     HANDLERS['numpy.' + _n] = h_generic(_n)
+def h_add_reduce(ip, st, args, kw, node):
+    # np.add.reduce(x, axis) is np.sum(x, axis) - but its default axis is 0, not None
+    if 'axis' not in kw and len(args) < 2:
+        kw = dict(kw, axis=Poly.const(0))
+    return h_sum(ip, st, args, kw, node)
+
+
+HANDLERS['numpy.add.reduce'] = h_add_reduce
+HANDLERS['numpy.multiply.outer'] = h_generic('outer')
+HANDLERS['numpy.multiply.reduce'] = h_generic('prod')
+
+
+def h_indices(ip, st, args, kw, node):
+    # np.indices((a, b)) is np.mgrid[0:a, 0:b]
+    if len(args) == 1 and not kw and isinstance(args[0], Tup) and 1 <= len(args[0]) <= 3 and all(isinstance(x, Poly) for x in args[0].items):
+        sls = [Slice(Poly.const(0), x) for x in args[0].items]
+        return Tup([app('mgrid', *sls, Poly.const(k)) for k in range(len(sls))])
+    return h_generic('numpy.indices')(ip, st, args, kw, node)
+
+
+HANDLERS['numpy.indices'] = h_indices
 HANDLERS['len'] = h_len
 HANDLERS['tuple'] = h_tuple('tuple')
 HANDLERS['list'] = h_tuple('list')
